@@ -582,3 +582,7 @@ M("m102", "C20", "R20.7", SAVI, "    convergence_test: str = \"span\"\n    shuff
 MUTANTS[-1]["rule"] = ["R20.7", "R20.3"]
 M("m103", "C10", "R10.6", RVI, "        self.policy = solver_state.policy\n        self.iteration = solver_state.info.iteration\n        self.gain = solver_state.info.gain", "        self.iteration = solver_state.info.iteration\n        self.gain = solver_state.info.gain",
   "RVI: the stored policy is saved but never restored (not loop-carried, so C09 is silent)")
+M("m104", "C02", "R2.1", VI, "        new_values = self._unbatch_results(padded_batched_values)\n        return new_values\n",
+  "        new_values = self._unbatch_results(padded_batched_values)\n        return new_values.astype(values.dtype)\n",
+  "sweep result cast back to the dtype of the incoming estimates (truncates for integer-typed estimates) - from seeded change C02")
+B("b37", ["C02", "C15", "C14"], FOREST, "        ).astype(jnp.int32)\n\n        return next_state, reward", "        ).astype(jnp.int64)\n\n        return next_state, reward", "problem state cast to another static integer dtype")
